@@ -441,7 +441,8 @@ class View:
 
     def word_obs(self, e: REntry, deep: bool = True) -> dict:
         sc = self.scope(e.owner)
-        forms = sorted(e.forms, key=lambda f: f.rank)
+        # a form an extension adds to the entry is the extension's: visible with it in scope
+        forms = sorted((f for f in e.forms if f.owner in sc), key=lambda f: f.rank)
         groups = self.entry_senses(e)
         flat = [s for g in groups for s in g]
         o = {'id': e.id, 'pos': e.pos, 'lexicon': e.owner.spec,
